@@ -30,6 +30,11 @@ PROP = dict(
                     "every step return code, handler arguments, remaining length and all remaining bytes equal the contiguous run for "
                     "every cut into 2 and 3 fragments, variants with empty fragments and PRNG lists; contiguous run checked against the "
                     "flat meaning of quote-free texts.  "
+                    "mpt_message_assign on 500 (thorough 6000) messages (element count from the caller or from the header, 0..3 path "
+                    "elements, payloads of 0..39 bytes and of 1000..1100 / 1500 bytes around the 1024 byte join buffer, missing "
+                    "terminators): return code, call count, path and value bytes seen by the handler equal the contiguous run for all "
+                    "2/3-fragment cuts (large payloads: cuts at both ends, the header and 1022..1026), empty parts and 24 PRNG lists; "
+                    "contiguous run against the flat meaning (>= 1024 payload bytes refused).  "
                     "C++ leg: graphic::target() on 203 (thorough 2755) layout:graph:world[:dim] addresses against a graphic with one "
                     "layout, two graphs, two worlds each, called twice per message, every cut into 2..5 fragments (empty ones "
                     "included) + 20 PRNG lists: return codes, destination, remaining length equal the contiguous run; message::read/length over every fragment list of lengths 0..8 (10) and "
@@ -54,7 +59,10 @@ PROP = dict(
                            "dispatch:word-cut-space-sep": 50000, "dispatch:registered-word": 1000, "dispatch:unknown-word": 300,
                            "mpt_message_property": 1000000, "monitor:property-compared": 150000,
                            "property:fragmented-run-with-refusal": 100000, "property:accepted": 300,
-                           "property:refused-by-handler": 300, "property:refused-no-assignment": 100, "property:refused-too-long": 10}),
+                           "property:refused-by-handler": 300, "property:refused-no-assignment": 100, "property:refused-too-long": 10,
+                           "mpt_message_assign": 150000, "monitor:assign-compared": 150000, "assign:accepted": 150,
+                           "assign:accepted-near-limit": 30, "assign:refused-too-long": 30, "assign:too-long-compared": 2500,
+                           "assign:near-limit-compared": 5000, "assign:refused-missing-element": 10}),
               dict(name="c17_cxx", memcheck=500, src=["c17_cxx.cpp"], libs=["mpt++", "mptio", "mptplot", "mptcore"], batch=512,
                    floors={"message::read": 200000, "message::length": 200000, "monitor:read-step": 200000,
                            "state:two-or-more-fragments": 10000, "state:has-empty-fragment": 10000,
